@@ -575,7 +575,11 @@ ValueType toVal(const std::string& s) { return ValueType(s.begin(), s.end()); }
 void Run::engineCallback(const char* where) {
   cbCount++;
   if (!inBuild && engine) viol("C05.2", std::string("engine callback '") + where + "' delivered while no build is running");
-  if (inBuild && cancel.on && !cancelIssued && (cancel.kind == 0 || cancel.kind == 1) && cbCount > cancel.n) {
+  // createExecutionQueue is called with the engine's queue mutex held: cancelling from inside that one
+  // delegate callback self-deadlocks by construction and is not a task callback (outside C05's quantifier)
+  bool inQueueFactory = !strcmp(where, "createExecutionQueue");
+  if (inBuild && cancel.on && !cancelIssued && (cancel.kind == 0 || cancel.kind == 1) && cbCount > cancel.n &&
+      !(inQueueFactory && cancel.kind == 0)) {
     if (cancel.kind == 0) {
       doCancel(true);
     } else {
